@@ -13,7 +13,11 @@ def main():
             continue
         d = tempfile.mkdtemp(prefix="vmut_")
         try:
-            shutil.copytree("/repo/src", os.path.join(d, "src"))
+            if os.environ.get("MUTATE_FROM_HEAD"):
+                # development aid: take the committed sources (something else may be patching /repo's working tree)
+                subprocess.run(f"git -C /repo archive HEAD src | tar -x -C {d}", shell=True, check=True)
+            else:
+                shutil.copytree("/repo/src", os.path.join(d, "src"))
             p = os.path.join(d, "src", m["file"])
             s = open(p).read()
             if s.count(m["old"]) != 1:
